@@ -607,6 +607,16 @@ class Frame:
                 return ("rng", site, args[0])
             if name in TRANSPARENT_NAMES and args:
                 return args[0]
+            if name == "box_assume_init_into_vec_unsafe" and len(t.get("args", [])) == 1:
+                # `vec![a, b, c]` (this toolchain's expansion): the array literal is written into a fresh uninitialised box, which then
+                # becomes the Vec — the Vec's initial contents are that array
+                pl0 = t["args"][0].get("m") or t["args"][0].get("c")
+                if pl0 and not pl0["p"]:
+                    for blk_ in self.body.blocks:
+                        for st_ in blk_["s"]:
+                            d_, r_ = st_.get("d"), st_.get("r") or {}
+                            if d_ and d_["l"] == pl0["l"] and "*" in d_["p"] and r_.get("k") == "agg" and r_["ak"].get("t") == "array":
+                                return self.rvalue_term(r_)
             if name == "from" and len(args) == 1 and (t.get("r") or "").startswith("<alloc::vec::Vec<T") and "From<[T; N]>" in (t.get("r") or ""):
                 return args[0]     # Vec::from([a, b, c]): the same elements in the same order
             if name == "size_of" and not args and t.get("ga"):
